@@ -6,6 +6,7 @@ import (
 	"fmt"
 	"math/rand"
 	"os"
+	"path/filepath"
 
 	"github.com/thomasjungblut/go-sstables/simpledb"
 )
@@ -27,7 +28,10 @@ type lifeCall struct {
 
 type c17Life struct {
 	Calls []lifeCall `json:"calls"`
-	Fatal string     `json:"fatal,omitempty"`
+	// right after the successful Open a compaction folder (as a running compaction would have) is planted in the
+	// directory; refused calls must leave it alone
+	PlantGone string `json:"plant_gone,omitempty"` // the call after which the planted folder had disappeared
+	Fatal     string `json:"fatal,omitempty"`
 }
 
 func lifeErr(err error) string {
@@ -69,7 +73,8 @@ func (c *c17Life) Exec() {
 			c.Fatal = fmt.Sprint("panic: ", r)
 		}
 	}()
-	c.Fatal = ""
+	c.Fatal, c.PlantGone = "", ""
+	planted := ""
 	dir := tmpDir("c17l-")
 	defer os.RemoveAll(dir)
 	db, err := simpledb.NewSimpleDB(dir, simpledb.DisableCompactions())
@@ -80,6 +85,11 @@ func (c *c17Life) Exec() {
 		switch l.Op {
 		case "open":
 			l.Err = lifeErr(db.Open())
+			if l.Err == "" {
+				planted = filepath.Join(dir, "sstable_compaction4711")
+				must(os.MkdirAll(planted, 0700))
+				must(os.WriteFile(filepath.Join(planted, "data.rio"), []byte{4, 0, 0, 0, 0, 0, 0, 0}, 0600))
+			}
 		case "close":
 			l.Err = lifeErr(db.Close())
 		case "put":
@@ -103,6 +113,11 @@ func (c *c17Life) Exec() {
 				l.Val, l.Found = append([]byte{}, v...), true
 			}
 		}
+		if planted != "" && c.PlantGone == "" && (l.Err == "NotOpenedYet" || l.Err == "AlreadyClosed" || l.Err == "AlreadyOpen") {
+			if _, err := os.Stat(filepath.Join(planted, "data.rio")); err != nil {
+				c.PlantGone = fmt.Sprintf("call %d (%s, refused with %s)", i, l.Op, l.Err)
+			}
+		}
 	}
 	// a handle that was opened and never closed by the program is closed here (outside the observations)
 	_ = db.Close()
@@ -112,6 +127,9 @@ func (c *c17Life) Exec() {
 func (c *c17Life) Oracle() (bool, string) {
 	if c.Fatal != "" {
 		return false, c.Fatal
+	}
+	if c.PlantGone != "" {
+		return false, "a refused call changed the directory: the folder of a running compaction was gone after " + c.PlantGone
 	}
 	open, closed := false, false
 	ref := map[string][]byte{}
